@@ -6,7 +6,7 @@ import re._constants as C
 
 from ..flow import Walker, World
 from ..model import AnalysisError, norm
-from ..pyeval import Interp, Obj, Unsupported
+from ..pyeval import Interp, Obj, Unsupported, Raised
 from .. import reglang
 
 RX = 'tdda.rexpy.rexpy.'
@@ -187,6 +187,36 @@ def _cval(e, env):
     raise AnalysisError('classifier operand not interpretable: %s' % t)
 
 
+def _char_tests(f):
+    """The tests fine_class makes on its character: the outermost comparisons and method calls that mention it.  Every use of the
+    character must be inside one of them (else the function sees more of the character than the tests say)."""
+    c = f.posparams[-1]
+    atoms = []
+    covered = set()
+
+    def visit(n):
+        if isinstance(n, (ast.Compare, ast.Call)) and any(isinstance(x, ast.Name) and x.id == c for x in ast.walk(n)):
+            atoms.append(n)
+            for x in ast.walk(n):
+                covered.add(id(x))
+            return
+        for ch in ast.iter_child_nodes(n):
+            visit(ch)
+    for st in f.node.body:
+        visit(st)
+    loose = [x for x in ast.walk(f.node) if isinstance(x, ast.Name) and x.id == c and isinstance(x.ctx, ast.Load) and id(x) not in covered]
+    if loose or not atoms:
+        raise AnalysisError('fine_class uses its character outside comparisons and method tests (line %s)' % (loose[0].lineno if loose else f.node.lineno))
+    if c != 'c':
+        # pred_set reads tests over the name c
+        class _Ren(ast.NodeTransformer):
+            def visit_Name(self, n):
+                return ast.copy_location(ast.Name(id='c', ctx=n.ctx), n) if n.id == c else n
+        import copy
+        atoms = [_Ren().visit(copy.deepcopy(a)) for a in atoms]
+    return atoms
+
+
 def klass(run, p, I, flags):
     run.rule('C03-CLASS', 'for every character that can reach the fine classifier (i.e. lies in the coarse alphanumeric class) the class '
                           'code it is given denotes a regex class that contains it; checked as sets over all Unicode code points, for '
@@ -199,41 +229,48 @@ def klass(run, p, I, flags):
         coarse = 'UAlphaNumeric' if unichrs else 'AlphaNumeric'
         universe = charset(cats[coarse], flags)
         env = {'UNICHRS': unichrs, 'cats.extra_letters': o.attrs.get('extra_letters', '') or ''}
-        taken = frozenset()
-        stmt = [s for s in f.node.body if isinstance(s, ast.If)]
-        if len(stmt) != 1:
-            raise AnalysisError('fine_class is no longer one if/elif chain')
-        node = stmt[0]
-        arms = []
-        while True:
-            arms.append((node.test, node.body))
-            if len(node.orelse) == 1 and isinstance(node.orelse[0], ast.If):
-                node = node.orelse[0]
-            else:
-                arms.append((None, node.orelse))
-                break
-        for test, body in arms:
-            if not body:
-                continue
-            ret = body[-1]
-            if not (isinstance(ret, ast.Return) and isinstance(ret.value, ast.Attribute) and ret.value.attr == 'code'):
-                raise AnalysisError('fine_class arm does not return <category>.code: %s' % norm(ret))
-            cat = ret.value.value.attr
-            s = (pred_set(test, universe, env) if test is not None else universe) - taken
-            taken = taken | s
-            if not s:
-                continue
+        # fine_class looks at the character only through a few tests (c.isdecimal(), 'a' <= c <= 'z', c in ...): the characters
+        # fall into classes that agree on every test, and the function - whatever its control flow - gives one answer per class;
+        # it is evaluated on representatives of each class
+        atoms = _char_tests(f)
+        sig = {}
+        sets = [pred_set(t, universe, env) for t in atoms]
+        for ch in universe:
+            sig.setdefault(tuple(ch in st for st in sets), []).append(ch)
+        code_to_cat = {}
+        for cname, cobj in o.attrs.items():
+            if hasattr(cobj, 'attrs') and 'code' in cobj.attrs:
+                code_to_cat[cobj.attrs['code']] = cname
+        by_cat = {}
+        for key, chars in sorted(sig.items()):
+            reps = {min(chars), max(chars), chars[len(chars) // 2]}
+            codes = set()
+            for ch in reps:
+                self_o = Obj(f.cls)
+                self_o.attrs['Cats'] = o
+                try:
+                    codes.add(Interp(p, consts={'UNICHRS': unichrs}).call(f, [ch], selfobj=self_o))
+                except (Unsupported, Raised) as e:
+                    raise AnalysisError('fine_class is not evaluable on %r: %s' % (ch, e))
+            if len(codes) != 1:
+                raise AnalysisError('fine_class distinguishes characters its tests do not: %r get %s' % (sorted(reps), sorted(codes)))
+            code = codes.pop()
+            if code not in code_to_cat:
+                raise AnalysisError('fine_class returns %r, which is no category code' % (code,))
+            by_cat.setdefault(code_to_cat[code], set()).update(chars)
+        for cat, chars in sorted(by_cat.items()):
+            s_ = frozenset(chars)
             if cat not in cats:
-                run.ob('C03-CLASS', 'fine_class[%s]:%s' % (extra, cat), False, 'arm returns %s which has no regex for extra_letters=%r' % (cat, extra), fn=f, node=ret)
+                run.ob('C03-CLASS', 'fine_class[%s]:%s' % (extra, cat), False, 'fine_class answers %s, which has no regex for extra_letters=%r' % (cat, extra), fn=f)
                 continue
             cls = charset(cats[cat], flags)
-            miss = sorted(s - cls)
+            miss = sorted(s_ - cls)
             n += 1
             run.ob('C03-CLASS', 'fine_class:%s' % cat if miss else 'fine_class[%s]:%s' % (extra, cat), not miss,
-                   'extra_letters=%r: %d characters are classed %s (%s)%s' % (extra, len(s), cat, cats[cat],
+                   'extra_letters=%r: %d characters are classed %s (%s)%s' % (extra, len(s_), cat, cats[cat],
                                                                                '' if not miss else '; %d of them are not matched by it, e.g. %s'
                                                                                % (len(miss), ' '.join('U+%04X' % ord(c) for c in miss[:4]))),
-                   fn=f, node=ret, detail={'examples': miss[:8]} if miss else None)
+                   fn=f, detail={'examples': miss[:8]} if miss else None)
     # the coarse classifier classifies *by* the class regex: holds by construction if it tests cat.re_single
     g = p.method('Extractor', 'coarse_classify_char')
     src = ast.unparse(g.node)
